@@ -32,6 +32,8 @@ type c08Scenario struct {
 	warm    []string   // ops run in the quiet set-up after the records exist (same syntax)
 	tick    int        // seconds advanced after warm-up (e.g. R+1 to make entries stale)
 	twoSK   bool       // create the first record, then expire the SK, so that two SK generations exist
+	maxBound   int     // 0 = the tier's bound; otherwise the highest preemption bound explored for this scenario
+	evictFirst bool    // the records of the last partitions are produced by another factory, so that the cache under test never held them
 }
 
 type c08State struct {
@@ -47,6 +49,7 @@ func payloadFor(p string) []byte { return []byte("payload-for-" + p + "-01234567
 func (sc *c08Scenario) setup() *c08State {
 	st := &c08State{w: NewWorld(), sess: map[string]*ae.Session{}, recs: map[string]*ae.DataRowRecord{}, payload: map[string][]byte{}}
 	st.f = st.w.NewFactory(sc.spec)
+	other := st.w.NewFactory(SpecDefault)
 	for i, p := range sc.parts {
 		s, err := st.f.GetSession(p)
 		if err != nil {
@@ -54,7 +57,14 @@ func (sc *c08Scenario) setup() *c08State {
 		}
 		st.sess[p] = s
 		st.payload[p] = payloadFor(p)
-		r, err := s.Encrypt(ctx, append([]byte(nil), st.payload[p]...))
+		enc := s
+		if sc.evictFirst && i >= 100 {
+			enc, _ = other.GetSession(p)
+		}
+		r, err := enc.Encrypt(ctx, append([]byte(nil), st.payload[p]...))
+		if enc != s {
+			enc.Close()
+		}
 		if err != nil {
 			panic(fmt.Sprintf("setup encrypt %s: %v", p, err))
 		}
@@ -63,6 +73,7 @@ func (sc *c08Scenario) setup() *c08State {
 			vclock.Advance((E + 1) * time.Second)
 		}
 	}
+	other.Close()
 	for _, op := range sc.warm {
 		if res := st.do(op); res.err != nil || res.pan != "" {
 			panic(fmt.Sprintf("setup warm %s: %v %s", op, res.err, res.pan))
@@ -227,6 +238,19 @@ func c08Scenarios(thorough bool) []c08Scenario {
 			c08Scenario{name: "H2-encdec-slru", spec: SpecShared("slru", 1), parts: []string{"A", "B"},
 				threads: [][]string{{"enc:A", "dec:A"}, {"dec:B"}}},
 		)
+		// H5: capacity >= 100 switches the key caches to ASYNCHRONOUS eviction (callbacks run on the cache's event
+		// goroutine): the shared IK cache is filled to its capacity by 100 partitions, then a hit on the oldest
+		// entry races with two misses that evict.
+		var many []string
+		for i := 0; i < 100; i++ {
+			many = append(many, fmt.Sprintf("P%03d", i))
+		}
+		out = append(out,
+			c08Scenario{name: "H5-async-lru-100", spec: SpecSharedIKOnly("lru", 100), parts: append(append([]string{}, many...), "Q", "R"), evictFirst: true, maxBound: 2,
+				threads: [][]string{{"dec:P000", "dec:P001"}, {"dec:Q"}, {"dec:R"}}},
+			c08Scenario{name: "H5-async-slru-100", spec: SpecSharedIKOnly("slru", 100), parts: append(append([]string{}, many...), "Q"), evictFirst: true, maxBound: 2,
+				threads: [][]string{{"dec:P000", "enc:P000"}, {"dec:Q"}}},
+		)
 	}
 	return out
 }
@@ -250,6 +274,9 @@ func CheckC08(r *Report) {
 		completed := -1
 		t0 := time.Now()
 		for _, b := range bounds {
+			if sc.maxBound > 0 && b > sc.maxBound {
+				break
+			}
 			cfg := explore.Config{Name: "C08/" + sc.name, Preemptions: b, Deviations: 0, HBCache: true, Deadline: r.Deadline, MaxViolations: 5}
 			res := explore.Explore(cfg, sc.body)
 			last = res
